@@ -102,7 +102,7 @@ def probe(d):
         raise RuntimeError("gen/c16_layout: sexp_reset_weak_references lost its early return")
     after = wbody[wbody.index(pre) + len(pre):]
     extras_first = after.startswith("sexp_mark_weak_extras(ctx);")
-    return dict(types=types, consts=consts, order=order, extras_first=extras_first, scan=scan_skeleton(sq), closefd=close_fd_facts(d))
+    return dict(types=types, consts=consts, order=order, extras_first=extras_first, scan=scan_skeleton(sq), closefd=close_fd_facts(d), r3=round3_facts(d))
 
 
 # ---- the control skeleton of sexp_mark_weak_extras (the ephemeron scan): what coq/C16/Model.v eph_loop / eph_pass /
@@ -187,6 +187,113 @@ def close_fd_facts(d):
     return dict(fn=fn, marks=marks)
 
 
+
+# ---- round 3: finalisers, the weak-reset and finaliser heap walks, the gate of the weak pass, collect-and-retry.
+# Each is the squeezed text (comments, white space and verification-hook blocks removed) of a whole function body as
+# coq/C16/Model.v / History.v mirror it; 1 = the function in $VERIF_REPO reads exactly like that.
+PIN_FINALIZE_FILENO = ("sexpsexp_finalize_fileno(sexpctx,sexpself,sexp_sint_tn,sexpfileno)",
+    "{if(sexp_fileno_openp(fileno)&&!sexp_fileno_no_closep(fileno)){sexp_fileno_openp(fileno)=0;close(sexp_fileno_fd(fileno));}returnSEXP_VOID;}")
+# Model.finalize_port: only an OPEN port acts; flush; if its fileno object is open: [shutdown(2) when the port has the
+# shutdown flag: releases nothing], unless no_closep count-- and sexp_finalize_fileno exactly when the count reaches 0;
+# fclose of the stream unless no_closep.
+PIN_FINALIZE_PORT = ("sexpsexp_finalize_port(sexpctx,sexpself,sexp_sint_tn,sexpport)",
+    "{sexpres=SEXP_VOID;if(sexp_port_openp(port)){sexp_port_openp(port)=0;if(sexp_oportp(port))sexp_flush_forced(ctx,port);"
+    "#ifndefPLAN9if(sexp_filenop(sexp_port_fd(port))&&sexp_fileno_openp(sexp_port_fd(port))){"
+    "if(sexp_port_shutdownp(port)){if(sexp_iportp(port))shutdown(sexp_port_fileno(port),sexp_oportp(port)?SHUT_RDWR:SHUT_RD);"
+    "if(sexp_oportp(port))shutdown(sexp_port_fileno(port),SHUT_WR);}"
+    "if(!sexp_port_no_closep(port)){if(--sexp_fileno_count(sexp_port_fd(port))==0)sexp_finalize_fileno(ctx,self,n,sexp_port_fd(port));}}#endif"
+    "if(sexp_port_stream(port)&&!sexp_port_no_closep(port))fclose(sexp_port_stream(port));sexp_port_offset(port)=0;sexp_port_size(port)=0;}returnres;}")
+# Model.finalize / finalize_one: every non-free chunk of every heap, in address order; unmarked and the type has a finaliser
+# => call it (the SEXP_USE_DL second pass only postpones dl objects)
+PIN_FINALIZE_WALK = ("sexpsexp_finalize(sexpctx)",
+    "{size_tsize;sexpp,t,end;sexp_free_listq,r;sexp_proc2finalizer;sexp_sint_tfinalize_count=0;sexp_heaph=sexp_context_heap(ctx);"
+    "#ifSEXP_USE_DLsexp_sint_tfree_dls=0,pass=0;loop:#endiffor(;h;h=h->next){p=sexp_heap_first_block(h);q=h->free_list;end=sexp_heap_end(h);"
+    "while(p<end){for(r=q->next;r&&((char*)r<(char*)p);q=r,r=r->next);if((char*)r==(char*)p){p=(sexp)(((char*)p)+r->size);continue;}"
+    "size=sexp_heap_align(sexp_allocated_bytes(ctx,p));if(size==0){returnSEXP_FALSE;}"
+    "if(!sexp_markedp(p)){t=sexp_object_type(ctx,p);finalizer=sexp_type_finalize(t);if(finalizer){finalize_count++;"
+    "#ifSEXP_USE_DLif(sexp_type_tag(t)==SEXP_DL&&pass<=0)free_dls=1;else#endiffinalizer(ctx,NULL,1,p);}}p=(sexp)(((char*)p)+size);}}"
+    "#ifSEXP_USE_DLif(free_dls&&pass++<=0)gotoloop;#endifreturnsexp_make_fixnum(finalize_count);}")
+# Model.weak_reset / reset_obj, behind the gate and the call of sexp_mark_weak_extras
+PIN_WEAK_RESET = ("intsexp_reset_weak_references(sexpctx)",
+    "{inti,len,broke,all_reset_p;sexp_heaph;sexpp,t,end,*v;sexp_free_listq,r;"
+    "if(sexp_not(sexp_global(ctx,SEXP_G_WEAK_OBJECTS_PRESENT)))return0;sexp_mark_weak_extras(ctx);broke=0;"
+    "for(h=sexp_context_heap(ctx);h;h=h->next){p=sexp_heap_first_block(h);q=h->free_list;end=sexp_heap_end(h);"
+    "while(p<end){for(r=q->next;r&&((char*)r<(char*)p);q=r,r=r->next);if((char*)r==(char*)p){p=(sexp)(((char*)p)+r->size);continue;}"
+    "if(sexp_valid_object_p(ctx,p)&&sexp_markedp(p)){t=sexp_object_type(ctx,p);if(sexp_type_weak_base(t)>0){all_reset_p=1;"
+    "v=(sexp*)((char*)p+sexp_type_weak_base(t));len=sexp_type_num_weak_slots_of_object(t,p);"
+    "for(i=0;i<len;i++){if(v[i]&&sexp_pointerp(v[i])&&!sexp_markedp(v[i])){v[i]=SEXP_FALSE;sexp_brokenp(p)=1;}else{all_reset_p=0;}}"
+    "if(all_reset_p){broke++;len+=sexp_type_weak_len_extra(t);for(;i<len;i++)v[i]=SEXP_FALSE;}}}"
+    "p=(sexp)(((char*)p)+sexp_heap_align(sexp_allocated_bytes(ctx,p)));}}"
+    "sexp_debug_printf(\"%p(broke%dweakreferences)\",ctx,broke);returnbroke;}")
+# History.step OEph + Gate.v: make-ephemeron is the one allocator of weak objects and switches the weak pass on, whatever key
+# and value are
+PIN_MAKE_EPHEMERON = ("sexpsexp_make_ephemeron_op(sexpctx,sexpself,sexp_sint_tn,sexpkey,sexpvalue)",
+    "{sexpres=sexp_alloc_type(ctx,pair,SEXP_EPHEMERON);if(!sexp_exceptionp(res)){sexp_global(ctx,SEXP_G_WEAK_OBJECTS_PRESENT)=SEXP_TRUE;"
+    "sexp_ephemeron_key(res)=key;sexp_ephemeron_value(res)=value;}returnres;}")
+GATE_INIT = "sexp_global(ctx,SEXP_G_WEAK_OBJECTS_PRESENT)=SEXP_FALSE;"
+GATE_SET = "sexp_global(ctx,SEXP_G_WEAK_OBJECTS_PRESENT)=SEXP_TRUE;"
+GATE_TEST = "if(sexp_not(sexp_global(ctx,SEXP_G_WEAK_OBJECTS_PRESENT)))return0;"
+# eval.c: open-input-file / open-output-file: fopen; on EMFILE (tested directly after the failed fopen) collect once and retry
+def _retry(var, mode, what, maker):
+    return ("{FILE*%s;intcount=0;sexp_assert_type(ctx,sexp_stringp,SEXP_STRING,path);do{if(count!=0)sexp_gc(ctx,NULL);%s=fopen(sexp_string_data(path),\"%s\");}"
+            "while(!%s&&sexp_out_of_file_descriptors()&&!count++);if(!%s)returnsexp_file_exception(ctx,self,\"couldn'topen%sfile\",path);"
+            "#ifSEXP_USE_GREEN_THREADSfcntl(fileno(%s),F_SETFL,O_NONBLOCK);#endifreturn%s(ctx,%s,path);}" % (var, var, mode, var, var, what, var, maker, var))
+PIN_OPEN_IN = ("sexpsexp_open_input_file_op(sexpctx,sexpself,sexp_sint_tn,sexppath)", _retry("in", "r", "input", "sexp_make_input_port"))
+PIN_OPEN_OUT = ("sexpsexp_open_output_file_op(sexpctx,sexpself,sexp_sint_tn,sexppath)", _retry("out", "w", "output", "sexp_make_output_port"))
+EMFILE_MACRO = "#definesexp_out_of_file_descriptors()(errno==EMFILE)"
+
+
+def _pin(sq, pin):
+    try:
+        return 1 if function_body(sq, pin[0]) == pin[1] else 0
+    except (RuntimeError, ValueError, IndexError):
+        return 0
+
+
+def _sources(d):
+    """every C source / header / stub of the tree that is compiled into the library or a shipped module"""
+    out = []
+    for root, dirs, files in os.walk(d):
+        dirs[:] = [x for x in dirs if x not in (".git", "tests", "benchmarks", "doc", "build-lib", "contrib", "js", "tools")]
+        for f in files:
+            if f.endswith((".c", ".h", ".stub")) and not f.startswith("verif_") and not f.startswith("embed_"):
+                out.append(os.path.join(root, f))
+    return sorted(out)
+
+
+def round3_facts(d):
+    sexp_c = squeeze(open(os.path.join(d, "sexp.c")).read())
+    gc_c = squeeze(open(os.path.join(d, "gc.c")).read())
+    eval_c = squeeze(open(os.path.join(d, "eval.c")).read())
+    sexp_h = squeeze(open(os.path.join(d, "include", "chibi", "sexp.h")).read())
+    # every mention of the gate, anywhere: 1 initialised to false (context creation), 2 set by make-ephemeron, 3 the test at the
+    # top of the weak pass, 4 its declaration in the globals enum, 0 anything else (another writer / another reader)
+    sites, allocs = [], 0
+    for f in _sources(d):
+        try:
+            t = squeeze(open(f, errors="replace").read())
+        except OSError:
+            continue
+        allocs += t.count("sexp_alloc_type(ctx,pair,SEXP_EPHEMERON)") + t.count("sexp_alloc_tagged(ctx,sexp_sizeof(pair),SEXP_EPHEMERON)")
+        i = 0
+        while True:
+            i = t.find("SEXP_G_WEAK_OBJECTS_PRESENT", i)
+            if i < 0:
+                break
+            code = 0
+            for c, text in ((1, GATE_INIT), (2, GATE_SET), (3, GATE_TEST)):
+                k = text.index("SEXP_G_WEAK_OBJECTS_PRESENT")
+                if t[i - k:i - k + len(text)] == text:
+                    code = c
+            if code == 0 and t[i:i + 28] == "SEXP_G_WEAK_OBJECTS_PRESENT," and f.endswith("sexp.h"):
+                code = 4
+            sites.append(code)
+            i += 1
+    return dict(fin_fileno=_pin(sexp_c, PIN_FINALIZE_FILENO), fin_port=_pin(sexp_c, PIN_FINALIZE_PORT), fin_walk=_pin(gc_c, PIN_FINALIZE_WALK),
+                weak_reset=_pin(gc_c, PIN_WEAK_RESET), make_eph=_pin(sexp_c, PIN_MAKE_EPHEMERON), gate_sites=sorted(sites), eph_allocs=allocs,
+                retry=[_pin(eval_c, PIN_OPEN_IN), _pin(eval_c, PIN_OPEN_OUT), 1 if sexp_h.count(EMFILE_MACRO) == 1 else 0])
+
+
 PH = {"mark": 1, "weak": 3, "finalize": 4, "sweep": 5}
 
 
@@ -229,7 +336,25 @@ def coq_text(v):
              "Definition scan_nothing_else : Z := %d." % v["scan"]["nothing_else"],
              "(* lib/chibi/filesystem.stub: (close-file-descriptor x) is bound to the C function " + v["closefd"]["fn"] + ";",
              "   1 = on a fileno object it clears sexp_fileno_openp and then closes sexp_fileno_fd *)",
-             "Definition close_fd_marks_fileno_closed : Z := %d." % v["closefd"]["marks"]]
+             "Definition close_fd_marks_fileno_closed : Z := %d." % v["closefd"]["marks"],
+             "(* round 3.  1 = the whole function reads as coq/C16/Model.v mirrors it (squeezed text in gen/c16_layout.py):",
+             "   sexp_finalize_fileno, sexp_finalize_port (count--, sexp_finalize_fileno exactly when the count reaches 0; the shutdown",
+             "   flag only guards shutdown(2)), the heap walk of sexp_finalize, sexp_reset_weak_references behind its gate *)",
+             "Definition finalize_fileno_as_modelled : Z := %d." % v["r3"]["fin_fileno"],
+             "Definition finalize_port_as_modelled : Z := %d." % v["r3"]["fin_port"],
+             "Definition finalize_walk_as_modelled : Z := %d." % v["r3"]["fin_walk"],
+             "Definition weak_reset_walk_as_modelled : Z := %d." % v["r3"]["weak_reset"],
+             "(* the gate of the weak pass, SEXP_G_WEAK_OBJECTS_PRESENT: every mention in the C sources, headers and stubs of the tree:",
+             "   1 = set to false at context creation, 2 = set to true by sexp_make_ephemeron_op, 3 = the early return of the weak pass,",
+             "   4 = the enum entry, 0 = anything else; make_ephemeron_sets_gate = 1: sexp_make_ephemeron_op reads exactly",
+             "   alloc; if (!exception) { gate = true; key; value }  (unconditionally: whatever key and value are);",
+             "   ephemeron_alloc_sites: how many places allocate an object of the (only) weak type *)",
+             "Definition weak_gate_sites : list Z := [" + "; ".join(str(x) for x in v["r3"]["gate_sites"]) + "].",
+             "Definition make_ephemeron_sets_gate : Z := %d." % v["r3"]["make_eph"],
+             "Definition ephemeron_alloc_sites : Z := %d." % v["r3"]["eph_allocs"],
+             "(* eval.c open-input-file / open-output-file: do { if (count) gc; fopen } while (failed && errno == EMFILE && !count++);",
+             "   [input op, output op, the macro sexp_out_of_file_descriptors() is (errno == EMFILE)] *)",
+             "Definition open_retry_as_modelled : list Z := [" + "; ".join(str(x) for x in v["r3"]["retry"]) + "]."]
     return "\n".join(lines) + "\n"
 
 
